@@ -17,6 +17,7 @@ class SrcInfo:
         """roots: list of crate root dirs (containing src/)"""
         self.roots = roots
         self.enums = {}        # name -> list of [variants]   (several enums may share a name)
+        self.enum_files = {}
         self.structs = {}      # name -> [field names] (named-field structs)
         self._files = {}
         self.fn_generics = {}  # fn name -> list of generic-param lists found in source
@@ -55,6 +56,7 @@ class SrcInfo:
                 variants.append((vm.group(1), disc))
                 disc += 1
             self.enums.setdefault(m.group(1), []).append(variants)
+            self.enum_files.setdefault(m.group(1), []).append(path)
         for m in re.finditer(r"\bstruct\s+([A-Za-z_0-9]+)\s*(<[^{(;]*>)?\s*(?:where[^{]*)?\{", src):
             try:
                 close = match_close(src, m.end() - 1)
@@ -89,14 +91,19 @@ class SrcInfo:
         return None
 
     def enum_variants(self, name, variant=None):
-        cands = self.enums.get(name, [])
+        cands = list(zip(self.enums.get(name, []), self.enum_files.get(name, [])))
         if variant is not None:
-            cands = [c for c in cands if any(v == variant for v, _ in c)]
+            cands = [c for c in cands if any(v == variant for v, _ in c[0])]
         if len(cands) >= 1:
-            # identical redefinitions (cfg variants) are fine; differing ones are ambiguous
-            first = cands[0]
-            if all(c == first for c in cands):
+            # identical redefinitions (cfg variants) are fine
+            first = cands[0][0]
+            if all(c[0] == first for c in cands):
                 return first
+            # same name in hand-written code and in generated capnp code: the hand-written main crate wins
+            # (mirsym values carry only the last path segment; the capnp enums are never executed by the obligations)
+            hand = [c for c in cands if "_capnp" not in c[1]]
+            if hand and all(c[0] == hand[0][0] for c in hand):
+                return hand[0][0]
             return None
         return None
 
